@@ -139,7 +139,7 @@ class _Transport:
             if o == "conn":
                 raise _ConnectionError("connection refused")
             if o == "hdr":
-                return _Response("gw", {"x-lunar-error": "3"})
+                return _Response("gw", {"x-lunar-error": _err_code(len(self.calls))})
             if o == "other":
                 raise AppError("raised by the transport, not a gateway error")
             return _Response("gw")
@@ -152,6 +152,16 @@ TRANSPORT = _Transport()
 class _Session:
     def request(self, method, url, headers=None, *a, **k):
         return TRANSPORT(self, method, url, headers, *a, **k)
+
+
+# x-lunar-error values the gateway can send: the five documented codes and ones the
+# interceptor has no message for (haproxy answers 10 while shutting down; empty / non-numeric
+# values from a newer or misbehaving gateway).  Any present value is a gateway failure.
+_ERR_CODES = ["3", "10", "1", "", "5", "abc", "2", "0", "4", "7"]
+
+
+def _err_code(i):
+    return _ERR_CODES[i % len(_ERR_CODES)]
 
 
 class AppError(Exception):
@@ -520,9 +530,11 @@ def exec_ops(case):
         elif name in ("vok", "verr"):
             raised = False
             try:
-                f.validate_headers({"x-lunar-error": "3"} if name == "verr" else [{}, {"content-type": "x"}][i % 2])
+                f.validate_headers({"x-lunar-error": _err_code(i)} if name == "verr" else [{}, {"content-type": "x"}][i % 2])
             except M.fs.ProxyErrorException:
                 raised = True
+            except Exception as x:  # anything else would be raised into the application
+                raised = "foreign:" + type(x).__name__
             obs.append(["validate", raised])
         elif name == "read":
             v = f.state_ok
@@ -609,7 +621,7 @@ def exec_events_on_object(ctor, t0, events):
                         exc = AppError("app")
                         raise exc
                     try:
-                        f.validate_headers({"x-lunar-error": "3"} if kind == "hdr" else {})
+                        f.validate_headers({"x-lunar-error": _err_code(len(ops))} if kind == "hdr" else {})
                         ops.append(["vok", 0])
                         obs.append(["validate", False])
                     except M.fs.ProxyErrorException:
@@ -741,7 +753,7 @@ def exec_overlap(case):
         elif what in ("vok", "verr"):
             raised = False
             try:
-                f.validate_headers({"x-lunar-error": "3"} if what == "verr" else [{}, {"content-type": "x"}][i % 2])
+                f.validate_headers({"x-lunar-error": _err_code(i)} if what == "verr" else [{}, {"content-type": "x"}][i % 2])
             except M.fs.ProxyErrorException as x:
                 raised = True
                 c_["exc"], c_["src"] = x, "hdr"
